@@ -214,18 +214,22 @@ def check_grouped(ck, n):
             continue
         # definition per row
         bad = []
+        cpre = list(pre)
+        if col is not None and col.dtype.kind == "M":
+            # dates between 1880-01-01 and 2200-01-01 as day counts (both sides of the epoch)
+            cpre += [z3.And(x.t >= -32872, x.t <= 84006) for x in col.e]
         for i in range(n):
             d = definition(kind, col, gid, i)
             r = v.e[i]
             rt = R.truth(r) if kind in ("any", "all") else T(r, float if kind == "mean" else None)
             bad.append(z3.Not(d(rt)))
-        r, m = ck.oblige(f"def {label}", pre + [z3.Or(bad)], 120,
+        r, m = ck.oblige(f"def {label}", cpre + [z3.Or(bad)], 120,
                          sample={"function": f"grouped_{kind}", "dtype": str(col.dtype) if col is not None else None, "rows": n,
                                  "claim": "result[i] == aggregate over {j : group_id[j] == group_id[i]} for every row i"})
         ck.nontrivial.add(("grouped", kind, str(col.dtype) if col is not None else "-", n))
         if r == "sat":
             report_grouped(ck, kind, col, gid, m, n)
-        r2, m2 = ck.oblige(f"noerr {label}", pre + [z3.Or(errs)] if errs else [z3.BoolVal(False)], 60)
+        r2, m2 = ck.oblige(f"noerr {label}", cpre + [z3.Or(errs)] if errs else [z3.BoolVal(False)], 60)
         if r2 == "sat":
             report_grouped(ck, kind, col, gid, m2, n, raises=True)
     # dtype gates (concrete): wrong dtypes raise TypeError
@@ -582,7 +586,7 @@ def run(tier):
                  "p_id labels for sum_by_p_id": "3 concrete label vectors per N (sorted, unsorted sparse); pointers symbolic",
                  "outside": "N>4 rows; numpy_groupies internals (modelled by its contract, conformance-tested)"}
     ck.stubs = ["numpy_groupies.aggregate(group_idx, a, func, fill_value) -> contract model", "numpy.zeros_like/isin/unique/pad/argmax/take/fancy indexing/astype -> models",
-                "datetime64 columns as integer day counts (order preserving)"]
+                "datetime64 columns as integer day counts (order preserving), dates 1880-01-01..2200-01-01"]
     ck.assumptions = ["group ids are non-negative (negative ids raise in numpy_groupies and in the model)"]
     ck.rule = "one obligation per (function, dtype, N, claim); distinct by that tuple"
     ck.explanation = ("Real aggregation / pointer-sum / join source executed on symbolic columns; z3 refutes any row that differs from the mathematical definition, "
